@@ -213,6 +213,32 @@ fn inputs(rep: &mut Report, thorough: bool) {
                         }
                     }
                 }
+                // a write that starts in an already dirty page ("changes no other bit" also means that
+                // bits set earlier stay, and that an earlier bit does not excuse a later page)
+                for (ri, (gpa, size)) in regions.iter().enumerate() {
+                    for (pre, o, l) in [(0x10u64, 0x800u64, 0x2000u64), (0x1ff0, 0x1ff8, 0x1010), (0x0, 0x0, *size)] {
+                        if o + l > *size || pre >= *size {
+                            continue;
+                        }
+                        clear_window(&log, log_off, log_size as usize);
+                        let w1 = gm.memory().write_slice(&[1u8; 1], GuestAddress(gpa + pre));
+                        let w2 = gm.memory().write_slice(&vec![2u8; l as usize], GuestAddress(gpa + o));
+                        let f = read_file(&log, file_len);
+                        let win = &f[log_off as usize..(log_off + log_size) as usize];
+                        let mut pages = pages_of(gpa + pre, 1);
+                        pages.extend(pages_of(gpa + o, l));
+                        let want = expected_window(&pages, log_size as usize);
+                        rep.evaluations += 1;
+                        rep.transitions += 2;
+                        if w1.is_err() || w2.is_err() || win != want.as_slice() {
+                            rep.outcome("log-bits-differ-after-earlier-write");
+                            rep.violation(&format!("C15:log:second-write:{}", if aligned { "aligned-layout" } else { "unaligned-layout" }), &format!("layout {lname}: 1 byte at {:#x}, then {l} bytes at {:#x}: log window {:02x?}, pages touched require {:02x?}", gpa + pre, gpa + o, &win[..win.len().min(8)], &want[..want.len().min(8)]), json!({"check":"C15","part":"inputs","layout":lname,"region":ri,"pre":pre,"offset":o,"len":l}));
+                        } else {
+                            rep.outcome("log-exact-after-earlier-write");
+                            rep.nontrivial += 1;
+                        }
+                    }
+                }
                 // a write spanning two guest-contiguous regions
                 if lname == "adjacent-regions" {
                     clear_window(&log, log_off, log_size as usize);
@@ -419,6 +445,25 @@ fn histories(rep: &mut Report, depth: usize) {
                     break;
                 }
             }
+            // the memory the backend holds consists of exactly the regions of the accepted updates: a
+            // table change that was rejected (e.g. because the log in force cannot cover it) changes nothing
+            if let Some(gm) = h.be.mem.lock().unwrap().clone() {
+                use vm_memory::{GuestMemory, GuestMemoryRegion};
+                let got: Vec<u64> = gm.memory().iter().map(|r| r.start_addr().0).collect();
+                let mut want: Vec<u64> = Vec::new();
+                if has_a {
+                    want.push(a.0);
+                }
+                if has_b {
+                    want.push(b.0);
+                }
+                rep.evaluations += 1;
+                if got != want {
+                    rep.outcome("history-memory-differs");
+                    rep.violation("C15:history:memory-differs-from-accepted-updates", &format!("history {:?}: backend memory has regions at {:x?}, the accepted updates give {:x?}", seq.iter().map(|i| format!("{:?}", ops[*i])).collect::<Vec<_>>(), got, want), case.clone());
+                    break;
+                }
+            }
         }
     }
 }
@@ -575,7 +620,7 @@ pub fn run(rep: &mut Report) {
     rep.sample(json!({"layout":"two-regions-sharing-a-log-byte","write":{"gpa":"0x4fff","len":2},"expect_log_byte0":"0b00110000"}));
     rep.sample(json!({"history":["TableA","LogBase","AddB","WriteB"],"expect":"bit of page 5 set (logging stays in force for memory added later)"}));
     rep.sample(json!({"schedule":"2 writers x 1 mark","expect":"byte 0 == OR of both bits in every interleaving of the atomic accesses"}));
-    rep.rule = "inputs: 8 region layouts (1-4 regions sharing log bytes, adjacent, crossing a log-byte boundary, three unaligned ones) x log window at file offset 4096 / 8192 between guard pages x log sizes {needed-1, needed, needed+1, 4096} x writes (offset, len) over {0,1,4095,4096,4097,8191,8192,8193,end-4097,end-4096,end-2,end-1} x {0,1,2,4095,4096,4097,8191,8192,8193,size,to-end} through GuestMemory::write_slice, one write spanning two regions and one used-ring update; histories: all sequences of length <= 4 (5 at thorough) over {SET_LOG_BASE, SET_LOG_BASE with a one-byte log (enough for region A, too small for region B: must be rejected and leave the log in force untouched), table A, table A+B, ADD B, REM B, write A, write B} ending in a write after a SET_LOG_BASE; schedules: N writers marking distinct bits of the same log byte, every interleaving of the atomic accesses (N=2,3; up to 6 at thorough). Oracle: log window == independent page-set bitmap (LSB first), guard bytes untouched, rejection iff unaligned region or log too small, final byte == OR of all writers' bits. Non-trivial = writes / set-ups / schedules whose log content was compared".into();
+    rep.rule = "inputs: 8 region layouts (1-4 regions sharing log bytes, adjacent, crossing a log-byte boundary, three unaligned ones) x log window at file offset 4096 / 8192 between guard pages x log sizes {needed-1, needed, needed+1, 4096} x writes (offset, len) over {0,1,4095,4096,4097,8191,8192,8193,end-4097,end-4096,end-2,end-1} x {0,1,2,4095,4096,4097,8191,8192,8193,size,to-end} through GuestMemory::write_slice, writes that start in an already dirty page, one write spanning two regions and one used-ring update; histories: all sequences of length <= 4 (5 at thorough) over {SET_LOG_BASE, SET_LOG_BASE with a one-byte log (enough for region A, too small for region B: must be rejected and leave the log in force untouched), table A, table A+B, ADD B, REM B, write A, write B} ending in a write after a SET_LOG_BASE; schedules: N writers marking distinct bits of the same log byte, every interleaving of the atomic accesses (N=2,3; up to 6 at thorough). Oracle: log window == independent page-set bitmap (LSB first), guard bytes untouched, rejection iff unaligned region or log too small, final byte == OR of all writers' bits. Non-trivial = writes / set-ups / schedules whose log content was compared".into();
     rep.assumptions.push("the atomic accesses of the bitmap go through the verif-hooks AtomicU8 wrapper, which makes each of them a scheduling point; sequentially consistent scheduler (Relaxed ordering is irrelevant for a single RMW)".into());
 }
 
